@@ -1,16 +1,21 @@
 #!/bin/bash
-# Polls /tmp/seedout-*/{A,B,...} and runs tools/seedrun.py once on every complete seed (patch.diff + demo.rs + meta.json).
+# tools/seedloop.sh <slot> <round letter> <ID>...: runs tools/seedrun.py (own scratch dirs per slot) once on every listed seed
+# as soon as it is complete (patch.diff + demo.rs + meta.json, untouched for 2 minutes).
+slot="$1"; x="$2"; shift 2
 mkdir -p /tmp/seedrun-done
-while true; do
-  for d in /tmp/seedout-C*/[A-Z]; do
-    [ -f "$d/patch.diff" ] && [ -f "$d/demo.rs" ] && [ -f "$d/meta.json" ] || continue
-    id=$(basename $(dirname $d) | sed 's/seedout-//'); x=$(basename $d)
-    [ -f /tmp/seedrun-done/$id-$x ] && continue
-    # wait until the seeding agent left the directory alone for 3 minutes
-    if [ $(( $(date +%s) - $(stat -c %Y $d/meta.json) )) -lt 180 ]; then continue; fi
-    python3 /verif/tools/seedrun.py $id $x >> /tmp/seedloop.log 2>&1
-    touch /tmp/seedrun-done/$id-$x
+pending="$*"
+while [ -n "$pending" ]; do
+  next=""
+  for id in $pending; do
+    d=/tmp/seedout-$id/$x
+    if [ -f "$d/patch.diff" ] && [ -f "$d/demo.rs" ] && [ -f "$d/meta.json" ] && [ $(( $(date +%s) - $(stat -c %Y $d/meta.json) )) -ge 120 ]; then
+      SEEDRUN_SLOT=$slot python3 /verif/tools/seedrun.py $id $x >> /tmp/seedloop$slot.log 2>&1
+      touch /tmp/seedrun-done/$id-$x
+    else
+      next="$next $id"
+    fi
   done
+  pending="$next"
   [ -f /tmp/seedloop.stop ] && exit 0
-  sleep 60
+  [ -n "$pending" ] && sleep 30
 done
